@@ -164,7 +164,7 @@ def lake_build(targets=('MTfitVerif', 'mtfit_driver')):
             'tail': out.splitlines()[-15:] if rc != 0 else []}
 
 
-AUDIT_TEMPLATE = '''import MTfitVerif.Props.%(pid)s
+AUDIT_TEMPLATE = '''%(imports)s
 open Lean Elab Command in
 run_cmd do
   let env ← getEnv
@@ -186,6 +186,11 @@ run_cmd do
 '''
 
 
+def prop_modules(pid):
+    d = os.path.join(LEAN_DIR, 'MTfitVerif', 'Props')
+    return sorted('MTfitVerif.Props.' + f[:-5] for f in os.listdir(d) if f.startswith(pid) and f.endswith('.lean'))
+
+
 def audit(pid, force=False):
     """Axiom audit of every theorem in namespace MTfitVerif.<pid>.  Cached by source hash."""
     os.makedirs(AUDIT_DIR, exist_ok=True)
@@ -202,7 +207,7 @@ def audit(pid, force=False):
             pass
     src = os.path.join(AUDIT_DIR, 'Audit_%s.lean' % pid)
     with open(src, 'w') as fh:
-        fh.write(AUDIT_TEMPLATE % {'pid': pid})
+        fh.write(AUDIT_TEMPLATE % {'pid': pid, 'imports': '\n'.join('import ' + m for m in prop_modules(pid))})
     t0 = time.time()
     rc, out = _run(['lake', 'env', 'lean', src], cwd=LEAN_DIR, timeout=3600)
     theorems = {}
@@ -267,7 +272,7 @@ def lean_side(pid, tier):
                           '(collectAxioms on every theorem of namespace MTfitVerif.%s)' % (pid, pid)}
     if tier == 'thorough':
         t0 = time.time()
-        rc, out = _run(['lake', 'env', 'leanchecker', 'MTfitVerif.Props.%s' % pid], cwd=LEAN_DIR, timeout=7200)
+        rc, out = _run(['lake', 'env', 'leanchecker'] + prop_modules(pid), cwd=LEAN_DIR, timeout=7200)
         cov['leanchecker'] = {'rc': rc, 'wall_s': round(time.time() - t0, 1), 'tail': out.splitlines()[-3:]}
         if rc != 0:
             problems.append({'kind': 'leanchecker-failed', 'detail': out.splitlines()[-5:]})
